@@ -150,6 +150,7 @@ func VerifSetChunkOrderObserver(f func(VerifOrderChunk)) {
 }
 
 func verifObserveChunkOrder(c *linkerContext) {
+	verifMetaStash(c)
 	verifShakeMutex.Lock()
 	obs := verifOrderObserver
 	verifShakeMutex.Unlock()
